@@ -56,6 +56,14 @@ var ctors = []ctor{
 	}},
 	{"errutil.NewWithDepthf(%w)", true, false, func(d int) reg.R { return reg.R{Err: errutil.NewWithDepthf(d, "x: %w", base), Frames: reg.Capture()} }},
 	{"errors.Wrapf(error arg)", false, false, func(d int) reg.R { return reg.R{Err: errors.Wrapf(base, "x: %v", base), Frames: reg.Capture()} }},
+	// an empty message takes another path through the wrapping constructors
+	{"errors.Wrap(empty)", false, false, func(d int) reg.R { return reg.R{Err: errors.Wrap(base, ""), Frames: reg.Capture()} }},
+	{"errors.WrapWithDepth(empty)", true, false, func(d int) reg.R { return reg.R{Err: errors.WrapWithDepth(d, base, ""), Frames: reg.Capture()} }},
+	{"errors.Wrapf(empty)", false, false, func(d int) reg.R { return reg.R{Err: errors.Wrapf(base, ""), Frames: reg.Capture()} }},
+	{"errors.WrapWithDepthf(empty)", true, false, func(d int) reg.R { return reg.R{Err: errors.WrapWithDepthf(d, base, ""), Frames: reg.Capture()} }},
+	{"errutil.Wrap(empty)", false, false, func(d int) reg.R { return reg.R{Err: errutil.Wrap(base, ""), Frames: reg.Capture()} }},
+	{"errutil.WrapWithDepth(empty)", true, false, func(d int) reg.R { return reg.R{Err: errutil.WrapWithDepth(d, base, ""), Frames: reg.Capture()} }},
+	{"errors.New(empty)", false, false, func(d int) reg.R { return reg.R{Err: errors.New(""), Frames: reg.Capture()} }},
 	{"errors.Wrap", false, false, func(d int) reg.R { return reg.R{Err: errors.Wrap(base, "x"), Frames: reg.Capture()} }},
 	{"errors.Wrapf", false, false, func(d int) reg.R { return reg.R{Err: errors.Wrapf(base, "x %d", 1), Frames: reg.Capture()} }},
 	{"errors.WrapWithDepth", true, false, func(d int) reg.R { return reg.R{Err: errors.WrapWithDepth(d, base, "x"), Frames: reg.Capture()} }},
